@@ -16,6 +16,7 @@
 
 use std::{
     cell::RefCell,
+    marker::PhantomData,
     panic::{catch_unwind, AssertUnwindSafe},
 };
 
@@ -42,9 +43,34 @@ fn take_default_log() -> Vec<usize> {
     DEFAULT_LOG.with(|l| std::mem::take(&mut *l.borrow_mut()))
 }
 
+thread_local! {
+    /// concrete indices of the resources whose custom setup handler (`Hc`) ran, in order
+    static HANDLER_LOG: RefCell<Vec<usize>> = RefCell::new(Vec::new());
+}
+fn take_handler_log() -> Vec<usize> {
+    HANDLER_LOG.with(|l| std::mem::take(&mut *l.borrow_mut()))
+}
+
+/// Custom `SetupHandler` of the zoo (`Read<'a, T, Hc<C>>`, `Write<'a, T, Hc<C>>`): its call is
+/// observable whatever exists already (logged), it provides `T` like the DefaultProvider and it ALSO
+/// provides the companion resource `C` - an effect beyond the resource the accessor declares.
+pub struct Hc<C>(PhantomData<C>);
+impl<T, C> shred::SetupHandler<T> for Hc<C>
+where
+    T: ZRes + Default,
+    C: ZRes + Default,
+{
+    fn setup(world: &mut World) {
+        HANDLER_LOG.with(|l| l.borrow_mut().push(T::IDX));
+        world.entry::<T>().or_insert_with(T::default);
+        world.entry::<C>().or_insert_with(C::default);
+    }
+}
+
 pub trait Hrtb<'b> {}
 
 pub trait ZRes: Resource + Sized {
+    const IDX: usize;
     fn mk(v: u32) -> Self;
     fn val(&self) -> u32;
 }
@@ -82,12 +108,12 @@ macro_rules! zres {
             impl Default for $d {
                 fn default() -> Self { log_default($i); $d(DEFAULT_BASE + $i) }
             }
-            impl ZRes for $d { fn mk(v: u32) -> Self { $d(v) } fn val(&self) -> u32 { self.0 } }
+            impl ZRes for $d { const IDX: usize = $i; fn mk(v: u32) -> Self { $d(v) } fn val(&self) -> u32 { self.0 } }
             impl<'b> Hrtb<'b> for $d {}
             /// resource WITHOUT `Default` (only usable through the Expect / Option forms)
             #[derive(Debug)]
             pub struct $n(pub u32);
-            impl ZRes for $n { fn mk(v: u32) -> Self { $n(v) } fn val(&self) -> u32 { self.0 } }
+            impl ZRes for $n { const IDX: usize = $i; fn mk(v: u32) -> Self { $n(v) } fn val(&self) -> u32 { self.0 } }
             impl<'b> Hrtb<'b> for $n {}
         )*
         pub static D_SLOTS: [Slot; NCONC] = [ $( Slot { name: stringify!($d), idx: $i, has_default: true,
@@ -283,6 +309,8 @@ pub struct Expect {
     pub alive: Vec<u8>,
     pub after: Vec<u8>,
     pub created: Vec<u32>,
+    #[serde(default)]
+    pub calls: Vec<u32>,
     /// presence after setup
     pub w1: Vec<bool>,
 }
@@ -441,15 +469,24 @@ fn do_fetch(ops: &Ops, slots: &[&'static Slot], ids: &[ResourceId], present: &[b
     obs
 }
 
+/// concrete indices of `D` types -> abstract resources of the case (0: not a resource of the case)
+fn abstract_of_default_types(slots: &[&'static Slot], log: &[usize]) -> Vec<u32> {
+    log.iter()
+        .map(|c| slots.iter().position(|s| s.has_default && s.idx == *c).map(|p| p as u32 + 1).unwrap_or(0))
+        .collect()
+}
+
 struct SetupObs {
     out: &'static str,
     created: Vec<u32>,
+    calls: Vec<u32>,
     w1: Vec<u32>,
 }
 
 fn do_setup(ops: &Ops, slots: &[&'static Slot], w0: &[u32], via: usize) -> SetupObs {
     let mut w = mk_world(slots, w0);
     take_default_log();
+    take_handler_log();
     let r = catch_unwind(AssertUnwindSafe(|| {
         if via == 3 {
             (ops.sys_setup)(&mut w)
@@ -457,12 +494,9 @@ fn do_setup(ops: &Ops, slots: &[&'static Slot], w0: &[u32], via: usize) -> Setup
             (ops.setup)(&mut w, via as u8)
         }
     }));
-    let log = take_default_log();
-    let created = log
-        .iter()
-        .map(|c| slots.iter().position(|s| s.has_default && s.idx == *c).map(|p| p as u32 + 1).unwrap_or(0))
-        .collect();
-    SetupObs { out: if r.is_ok() { "ok" } else { "panic" }, created, w1: snapshot(slots, &w) }
+    let created = abstract_of_default_types(slots, &take_default_log());
+    let calls = abstract_of_default_types(slots, &take_handler_log());
+    SetupObs { out: if r.is_ok() { "ok" } else { "panic" }, created, calls, w1: snapshot(slots, &w) }
 }
 
 fn random_presence(n: usize, rng: &mut StdRng, k: usize) -> Vec<bool> {
@@ -591,12 +625,13 @@ pub fn run_case(ops: &Ops, d: &CaseDesc, rng: &mut StdRng, ev: &mut Vec<Value>, 
         let w0: Vec<u32> = present.iter().map(|p| if *p { rng.gen_range(1..DEFAULT_BASE) } else { 0 }).collect();
         let o = do_setup(ops, &slots, &w0, via);
         st.setup_runs += 1;
-        let e = json!({"ev":"setup","via":SETUP_VIA[via],"w0":w0,"out":o.out,"created":o.created,"w1":o.w1});
+        let e = json!({"ev":"setup","via":SETUP_VIA[via],"w0":w0,"out":o.out,"created":o.created,"calls":o.calls,"w1":o.w1});
         if let Some(x) = exp {
             st.model_runs += 1;
             let n = x.w1.len();
             let same = o.out == "ok"
                 && o.created == x.created
+                && o.calls == x.calls
                 && (0..n).all(|i| (o.w1[i] != 0) == x.w1[i] && (w0[i] == 0 || o.w1[i] == w0[i]) && (w0[i] != 0 || o.w1[i] == 0 || o.w1[i] == dflt[i]))
                 && (n..d.nres).all(|i| o.w1[i] == w0[i]);
             if same {
@@ -604,7 +639,7 @@ pub fn run_case(ops: &Ops, d: &CaseDesc, rng: &mut StdRng, ev: &mut Vec<Value>, 
             } else {
                 st.model_mismatch += 1;
                 if st.mismatch_samples.len() < 3 {
-                    st.mismatch_samples.push(json!({"case":d.id,"ty":d.ty,"observed":e,"expected":{"created":x.created,"w1":x.w1}}));
+                    st.mismatch_samples.push(json!({"case":d.id,"ty":d.ty,"observed":e,"expected":{"created":x.created,"calls":x.calls,"w1":x.w1}}));
                 }
             }
         }
@@ -616,12 +651,10 @@ pub fn run_case(ops: &Ops, d: &CaseDesc, rng: &mut StdRng, ev: &mut Vec<Value>, 
         let w0: Vec<u32> = present.iter().map(|p| if *p { rng.gen_range(1..DEFAULT_BASE) } else { 0 }).collect();
         let mut w = mk_world(&slots, &w0);
         take_default_log();
+        take_handler_log();
         let r = catch_unwind(AssertUnwindSafe(|| (ops.exec)(&mut w)));
-        let log = take_default_log();
-        let created: Vec<u32> = log
-            .iter()
-            .map(|c| slots.iter().position(|s| s.has_default && s.idx == *c).map(|p| p as u32 + 1).unwrap_or(0))
-            .collect();
+        let created = abstract_of_default_types(&slots, &take_default_log());
+        let calls = abstract_of_default_types(&slots, &take_handler_log());
         let after = classify(&w, &ids);
         let w1 = snapshot(&slots, &w);
         let (out, pres) = match r {
@@ -629,7 +662,7 @@ pub fn run_case(ops: &Ops, d: &CaseDesc, rng: &mut StdRng, ev: &mut Vec<Value>, 
             Err(p) => classify_panic(&slots, &panic_text(p)),
         };
         st.exec_runs += 1;
-        ev.push(json!({"ev":"exec","w0":w0,"out":out,"pres":pres,"created":created,"after":after,"w1":w1}));
+        ev.push(json!({"ev":"exec","w0":w0,"out":out,"pres":pres,"created":created,"calls":calls,"after":after,"w1":w1}));
     }
     st.cases += 1;
     st.events += ev.len() - n0;
